@@ -390,9 +390,21 @@ def transmission_failures(n, seed, limit=3):
         if prob is None and fr.subframes:
             try:
                 b = fr.subbounds()
-                fr.bounds()
+                gb = fr.bounds()
             except Exception as e:
                 prob = f'subbounds()/bounds() raised {type(e).__name__}: {e}'
+            else:
+                # the bounds that are "always available" are the extreme times and wavelengths of each polygon, and of all of them
+                bt, bw = b['time'].values.reshape(-1, 2), b['wavelength'].values.reshape(-1, 2)
+                want_t = np.array([[ts.min(), ts.max()] for ts, ws in polys])
+                want_w = np.array([[ws.min(), ws.max()] for ts, ws in polys])
+                if bt.shape != want_t.shape or not (np.array_equal(bt, want_t) and np.array_equal(bw, want_w)):
+                    prob = 'subbounds() are not the extreme times / wavelengths of the subframes'
+                elif not (np.array_equal(gb['time'].values, [want_t[:, 0].min(), want_t[:, 1].max()])
+                          and np.array_equal(gb['wavelength'].values, [want_w[:, 0].min(), want_w[:, 1].max()])):
+                    prob = 'bounds() are not the overall extreme times / wavelengths'
+                elif not all(s_.is_regular() for s_ in fr.subframes):
+                    prob = 'a subframe produced by chopping / propagating is not regular'
         if prob is None and nch >= 2:
             try:
                 out2 = fs.chop(list(reversed(chs)))
@@ -431,6 +443,20 @@ def transmission_failures(n, seed, limit=3):
             fails.append({**desc, 'problem': prob})
             if len(fails) >= limit:
                 break
+    # is_regular against its definition, on hand-made polygons (regular and not)
+    for i in range(n):
+        nv = int(rng.integers(3, 7))
+        ts, ws = rng.integers(0, 6, nv).astype(float), rng.integers(0, 6, nv).astype(float)
+        sub = cc.Subframe(time=sc.array(dims=['vertex'], values=ts, unit='s'), wavelength=sc.array(dims=['vertex'], values=ws, unit='angstrom'))
+        want = bool(np.any((ts == ts.min()) & (ws == ws.min())) and np.any((ts == ts.max()) & (ws == ws.max())))
+        try:
+            got = bool(sub.is_regular())
+        except Exception as e:
+            got = f'raised {type(e).__name__}'
+        if got != want:
+            fails.append({'id': f'regular{i}', 'index': i, 'seed': seed, 'problem': f'is_regular() == {got} for times {ts.tolist()} and wavelengths {ws.tolist()}: by definition {want}'})
+            if len(fails) >= limit:
+                return fails[:limit]
     # targeted: pulses cut close to the source (horizontal edges), where vertex ties are decided by the interpolation
     for i in range(n):
         tmax = float(rng.uniform(1e-3, 5e-3))
